@@ -26,6 +26,9 @@ type c05Case struct {
 	Values   []string   `json:"values"`        // the value written (one element for a leaf)
 	Path     string     `json:"path"`          // set | setvalue | upsert-json | insert-json | update-json | upsert-xml | upsert-rs
 	Store    string     `json:"store"`
+	// Unchecked: before the write the same browser serves a root selection with Browser.DisableConstraints on (the way
+	// legacy data is loaded unchecked); the flag is off again for the write
+	Unchecked bool `json:"unchecked,omitempty"`
 }
 
 func c05Module(c c05Case) *dm.Module {
@@ -201,6 +204,14 @@ func c05Run(c c05Case, o *hx.Obs) {
 		return
 	}
 	b := node.NewBrowser(mm, store.Node())
+	if c.Unchecked {
+		o.Class("browser used unchecked before")
+		o.Guard("unchecked read", func() {
+			b.DisableConstraints = true
+			nodeutil.WriteJSON(b.Root())
+			b.DisableConstraints = false
+		})
+	}
 	var werr error
 	newC := dm.Tree{"c": dm.Tree{"x": asTree(c.Values)}}
 	if o.Guard("write("+c.Path+")", func() {
@@ -420,6 +431,12 @@ func genRangeLevels(t *rapid.T, lo, hi *big.Int, fd, nLevels int, label string) 
 var c05Patterns = []string{"[a-c]*", "a+b?", "(ab|c)+", "[a-c]{2,4}", "a.*", "b.*", "x?[abc]{1,3}", ".*b.*", "[^x]*", "é+", "a|b", "!a.*", "!.*x.*", "![a-c]{3}"}
 
 func c05Gen(t *rapid.T) c05Case {
+	c := c05GenBase(t)
+	c.Unchecked = rapid.IntRange(0, 3).Draw(t, "unchecked-before") == 0
+	return c
+}
+
+func c05GenBase(t *rapid.T) c05Case {
 	c := c05Case{Store: rapid.SampledFrom([]string{"rs", "rs", "reflect-map"}).Draw(t, "store"),
 		Path: rapid.SampledFrom([]string{"set", "setvalue", "upsert-json", "insert-json", "update-json", "upsert-xml", "upsert-rs"}).Draw(t, "path")}
 	c.Base = rapid.SampledFrom([]string{"int8", "int16", "int32", "int64", "uint8", "uint16", "uint32", "uint64", "decimal64", "string", "string"}).Draw(t, "base")
